@@ -8,7 +8,7 @@ import SqlObjVerif.Model.DrvUtil
     `write <e> <i> <a> <k> <v>` / `set <e> <i> (<a>:<k>:<v>)*` -> `ok` | …
     `destroy <e> <i>`                                 -> `ok del <classes in DELETE order>` | `NotFound`
     `select <c> <filter, prefix notation>` / `selectby <c> (<a>:<k>:<v>)*` -> `sel (<i>:<m|error>)*`
-    `bulkdel <c> <filter over own columns>`           -> `ok`  (`cls.deleteMany(where)` / `cls.deleteBy(**kw)`)
+    `bulkdel <c> <filter>` / `bulkdelby <c> (<a>:<k>:<v>)*` -> `ok`  (`cls.deleteMany(where)` / `cls.deleteBy(**kw)`)
     `dump`                                            -> every row of every table
     `views <i>`                                       -> what every entry level shows for id `i` -/
 open SqlObjVerif SqlObjVerif.Inherit SqlObjVerif.DrvUtil
@@ -202,7 +202,11 @@ def handle (s : St) (line : String) : St × String :=
     | _, _ => (s, "bad-op")
   | "bulkdel" :: c :: rest =>
     match c.toNat?, parseFilter (rest.length + 1) rest with
-    | some c, some (f, []) => ({ s with db := bulkDelete s.db c f }, "ok")
+    | some c, some (f, []) => ({ s with db := deleteMany s.T s.db c f }, "ok")
+    | _, _ => (s, "bad-op")
+  | "bulkdelby" :: c :: kvs =>
+    match c.toNat?, parseKVs kvs with
+    | some c, some kvs => ({ s with db := deleteBy s.T s.db c kvs }, "ok")
     | _, _ => (s, "bad-op")
   | ["dump"] => (s, dump s)
   | ["views", i] =>
